@@ -431,14 +431,14 @@ Proof.
 Qed.
 
 (* a quote-demarcated term in which the OTHER quote character is written bare, in pairs *)
-Lemma other_not_special q : mem_ascii (qchar (other q)) (nest_specials q) = false.
+Lemma other_not_special q : mem_ascii (qchar (other_quote q)) (nest_specials q) = false.
 Proof. destruct q; reflexivity. Qed.
 
 Lemma nonempty_snoc a c : nonempty (snoc a c) = true.
 Proof. destruct a; reflexivity. Qed.
 
 Lemma run_nest d q S ty i m A : forall t open acc,
-  nonempty acc = true -> pairs_close (qchar (other q)) open t = true ->
+  nonempty acc = true -> pairs_close (qchar (other_quote q)) open t = true ->
   R (BN open d q S ty i m A acc) (esc_with (nest_specials q) t)
   = Ok (BN false d q S ty i m A (acc ++ kept strip (nest_specials q) t)).
 Proof.
@@ -448,8 +448,8 @@ Proof.
   - cbn [pairs_close] in Hp. cbn [esc_with].
     destruct (mem_ascii c (nest_specials q)) eqn:Em.
     + (* written \c *)
-      assert (Ec : Ascii.eqb c (qchar (other q)) = false).
-      { destruct (Ascii.eqb c (qchar (other q))) eqn:E; [|reflexivity].
+      assert (Ec : Ascii.eqb c (qchar (other_quote q)) = false).
+      { destruct (Ascii.eqb c (qchar (other_quote q))) eqn:E; [|reflexivity].
         apply Ascii.eqb_eq in E. subst c. rewrite other_not_special in Em. discriminate. }
       rewrite Ec in Hp. cbn [run]. rewrite bs_step. cbn [bind].
       destruct strip eqn:Es.
@@ -457,7 +457,7 @@ Proof.
         unfold kept. rewrite app_snoc. reflexivity.
       * cbn [run]. rewrite esc_step. cbn [bind]. rewrite (IH open _ (nonempty_snoc _ _) Hp).
         unfold kept. cbn [esc_with]. rewrite Em. rewrite !app_snoc. reflexivity.
-    + destruct (Ascii.eqb c (qchar (other q))) eqn:Ec.
+    + destruct (Ascii.eqb c (qchar (other_quote q))) eqn:Ec.
       * (* the other quote: a nested pair opens or closes *)
         apply Ascii.eqb_eq in Ec. subst c. cbn [run].
         destruct open.
@@ -472,7 +472,7 @@ Qed.
 
 Lemma term_run S i m A st term rest :
   match st_quote st with
-  | Some q => negb (st_nest st) || pairs_close (qchar (other q)) false term
+  | Some q => negb (st_nest st) || pairs_close (qchar (other_quote q)) false term
   | None => true
   end = true ->
   R (Br S (Some TSearch) i (Some m) A "" false false)
